@@ -24,13 +24,20 @@ Record Defects := {
   d_snap_unexecuted : bool;
     (* maybeTriggerSnapshot snapshots at appliedIndex although blocks handed to the executor are
        not executed yet.  Repaired: no snapshot while lastExec is above the executed height. *)
-  d_solo_commit10 : bool
+  d_solo_commit10 : bool;
     (* solo calls CommitTransactions only for heights divisible by 10 *)
+  d_snapin_lost : bool
+    (* a snapshot received from the leader is durable before its blocks are executed, and a restart
+       does not fetch the missing blocks again.  Repaired: run() calls recoverFromSnapshot when the
+       newest snapshot's height is above lastExec. *)
 }.
-Definition cfg_fixed : Defects := {| d_restart_height_only := false; d_snap_unexecuted := false; d_solo_commit10 := false |}.
-Definition only_restart : Defects := {| d_restart_height_only := true; d_snap_unexecuted := false; d_solo_commit10 := false |}.
-Definition only_snap : Defects := {| d_restart_height_only := false; d_snap_unexecuted := true; d_solo_commit10 := false |}.
-Definition only_solo10 : Defects := {| d_restart_height_only := false; d_snap_unexecuted := false; d_solo_commit10 := true |}.
+Definition mkD (r s o i : bool) : Defects :=
+  {| d_restart_height_only := r; d_snap_unexecuted := s; d_solo_commit10 := o; d_snapin_lost := i |}.
+Definition cfg_fixed : Defects := mkD false false false false.
+Definition only_restart : Defects := mkD true false false false.
+Definition only_snap : Defects := mkD false true false false.
+Definition only_solo10 : Defects := mkD false false true false.
+Definition only_snapin : Defects := mkD false false false true.
 
 (** * The log *)
 Definition blk := (N * list N)%type.            (* height, tx ids : what a CommitEvent carries *)
@@ -153,7 +160,10 @@ Inductive rop :=
 | OReady (lo hi app : N) (lead : option N)  (* one Ready: CommittedEntries = lo..hi, storage filled up to app, SoftState *)
 | OExec                                     (* the executor takes the next commit event and makes it durable *)
 | OReport (h : N)                           (* ReportState(h) reaches the node loop *)
-| OCrash                                    (* process death + NewNode/Start on the same storage *)
+| OCrash (bs : list (N * blk))              (* process death + NewNode/Start on the same storage; [bs]: the blocks the
+                                               repaired start-up fetches from peers (ghost index, block) *)
+| OSnapIn (idx : N) (bs : list (N * blk))   (* a Ready with the leader's snapshot at index idx; [bs]: the blocks
+                                               recoverFromSnapshot gets from peers and hands over *)
 | OPropose (k : N)                          (* the pool hands k batches to the node (GenerateBlock / ProcessTransactions) *)
 | ONop.
 
@@ -181,6 +191,19 @@ Definition snap_guard (d : Defects) (m : rmem) (x : rexec) : bool :=
 
 Fixpoint seq_from (s : N) (k : nat) : list N :=
   match k with O => [] | S j => (s + 1) :: seq_from (s + 1) j end.
+
+(** the batch at index [fst ib] continues the canonical chain (what an honest peer serves for its height) *)
+Definition acc_b (init : N) (lg : rlog) (ib : N * blk) : bool :=
+  let '(idx, (h, txs)) := ib in
+  (1 <=? idx) && match entry_at lg idx with
+                 | Some (EBatch h' txs') => (h' =? h) && list_eqb N.eqb txs' txs && (h =? ch init lg (idx - 1) + 1)
+                 | _ => false
+                 end.
+Fixpoint contig_from_i (c : N) (evs : list (N * blk)) : bool :=
+  match evs with [] => true | e :: t => (fst (snd e) =? c + 1) && contig_from_i (c + 1) t end.
+(** peers serve the canonical blocks from..to, in order *)
+Definition sync_ok (init : N) (lg : rlog) (from to : N) (bs : list (N * blk)) : bool :=
+  forallb (acc_b init lg) bs && contig_from_i from bs && (from + N.of_nat (length bs) =? to).
 
 Definition restart_mem (d : Defects) (dk : rdisk) (x : rexec) : rmem :=
   {| lastExec := chain x; applied := dsnap dk; snapIdx := dsnap dk;
@@ -240,9 +263,32 @@ Definition rstep (d : Defects) (c : rcfg) (lg : rlog) (s : rsys) (op : rop) : op
             Some ({| mem := m'; disk := dk; ex := ex s; avail := avail s |}, no_out)
         end
       else None
-  | OCrash =>
-      let x := {| chain := chain (ex s); chainIdx := chainIdx (ex s); queue := [] |} in
-      Some ({| mem := restart_mem d (disk s) x; disk := disk s; ex := x; avail := avail s |}, no_out)
+  | OCrash bs =>
+      let resync := negb (d_snapin_lost d) && (chain (ex s) <? dsnapH (disk s)) in
+      if (if resync then sync_ok (c_init c) lg (chain (ex s)) (dsnapH (disk s)) bs
+          else match bs with [] => true | _ => false end)
+      then
+        let x := {| chain := chain (ex s); chainIdx := chainIdx (ex s); queue := bs |} in
+        let m0 := restart_mem d (disk s) x in
+        let m := {| lastExec := lastExec m0 + N.of_nat (length bs); applied := applied m0; snapIdx := snapIdx m0; bai := bai m0;
+                    justElected := false; leader := 0; seqNo := seqNo m0 |} in
+        Some ({| mem := m; disk := disk s; ex := x; avail := avail s |}, {| o_ev := bs; o_prop := [] |})
+      else None
+  | OSnapIn idx bs =>
+      let m := mem s in
+      if (applied m <? idx) && (idx <=? avail s) && (stored (disk s) <=? idx)
+         && sync_ok (c_init c) lg (lastExec m) (ch (c_init c) lg idx) bs
+         && negb (match bs with [] => chain (ex s) =? lastExec m | _ => false end)
+      then
+        let m1 := {| lastExec := lastExec m + N.of_nat (length bs); applied := idx; snapIdx := idx; bai := bai m;
+                     justElected := justElected m; leader := leader m; seqNo := seqNo m |} in
+        let m2 := after_elected m1 idx in
+        let dk := {| persisted := persisted (disk s); dsnap := idx; dsnapH := lastExec m1; stored := idx |} in
+        Some ({| mem := m2; disk := dk;
+                 ex := {| chain := chain (ex s); chainIdx := chainIdx (ex s); queue := queue (ex s) ++ bs |};
+                 avail := avail s |},
+              {| o_ev := bs; o_prop := [] |})
+      else None
   | OPropose k =>
       let m := mem s in
       if leader m =? c_id c then
@@ -317,7 +363,7 @@ Definition shadow_step (sh : shadow) (op : rop) (o : robs) : shadow :=
              | [] => sh
              | b :: q => {| sh_cur := sh_cur sh; sh_chain := fst b; sh_queue := q |}
              end
-  | OCrash => {| sh_cur := sh_chain sh; sh_chain := sh_chain sh; sh_queue := [] |}
+  | OCrash _ => {| sh_cur := sh_chain sh + N.of_nat (length (b_ev o)); sh_chain := sh_chain sh; sh_queue := b_ev o |}
   | _ => {| sh_cur := sh_cur sh + N.of_nat (length (b_ev o)); sh_chain := sh_chain sh; sh_queue := sh_queue sh ++ b_ev o |}
   end.
 
@@ -326,14 +372,14 @@ Definition shadow_step (sh : shadow) (op : rop) (o : robs) : shadow :=
 Fixpoint contiguous (sh : shadow) (ops : list rop) (tr : list robs) : Prop :=
   match ops, tr with
   | op :: ops', o :: tr' =>
-      contig_from (match op with OCrash => sh_chain sh | _ => sh_cur sh end) (b_ev o)
+      contig_from (match op with OCrash _ => sh_chain sh | _ => sh_cur sh end) (b_ev o)
       /\ contiguous (shadow_step sh op o) ops' tr'
   | _, _ => True
   end.
 Fixpoint contiguous_b (sh : shadow) (ops : list rop) (tr : list robs) : bool :=
   match ops, tr with
   | op :: ops', o :: tr' =>
-      contig_from_b (match op with OCrash => sh_chain sh | _ => sh_cur sh end) (b_ev o)
+      contig_from_b (match op with OCrash _ => sh_chain sh | _ => sh_cur sh end) (b_ev o)
       && contiguous_b (shadow_step sh op o) ops' tr'
   | _, _ => true
   end.
@@ -449,7 +495,7 @@ Definition leader_seq_step_b (id pl : N) (op : rop) (o : robs) : bool :=
   end.
 Definition next_leader (pl : N) (op : rop) (o : robs) : N :=
   match op with
-  | OCrash => 0
+  | OCrash _ => 0
   | OReady _ _ _ (Some l) => l
   | _ => pl
   end.
@@ -487,13 +533,17 @@ Definition obs_eqb (a b : robs) : bool :=
 (** the flag sets allowed by [d], smallest first: the first one whose run equals the implementation's
     trace says which listed defects are needed to explain it *)
 Definition subsets (d : Defects) : list Defects :=
-  let r := d_restart_height_only d in let s := d_snap_unexecuted d in let o := d_solo_commit10 d in
-  (if r && s then [{| d_restart_height_only := false; d_snap_unexecuted := false; d_solo_commit10 := o |}] else [])
-    ++ (if r then [{| d_restart_height_only := false; d_snap_unexecuted := s; d_solo_commit10 := o |}] else [])
-    ++ (if s then [{| d_restart_height_only := r; d_snap_unexecuted := false; d_solo_commit10 := o |}] else [])
-    ++ [d].
+  let o := d_solo_commit10 d in
+  let opts (b : bool) := if b then [false; true] else [false] in
+  let all := flat_map (fun r => flat_map (fun sn => map (fun i => mkD r sn o i) (opts (d_snapin_lost d)))
+                                         (opts (d_snap_unexecuted d))) (opts (d_restart_height_only d)) in
+  (* fewest flags first *)
+  let size (x : Defects) : N := (if d_restart_height_only x then 1 else 0) + (if d_snap_unexecuted x then 1 else 0)
+                                + (if d_snapin_lost x then 1 else 0) in
+  filter (fun x => size x =? 0) all ++ filter (fun x => size x =? 1) all
+  ++ filter (fun x => size x =? 2) all ++ filter (fun x => size x =? 3) all.
 Definition flag_bits (d : Defects) : N :=
-  (if d_restart_height_only d then 1 else 0) + (if d_snap_unexecuted d then 2 else 0).
+  (if d_restart_height_only d then 1 else 0) + (if d_snap_unexecuted d then 2 else 0) + (if d_snapin_lost d then 4 else 0).
 
 Definition raft_case := (Defects * rcfg * rlog * list rop * list robs)%type.
 
@@ -676,7 +726,7 @@ Definition judge_solo (cs : solo_case) : verdict :=
         match try1 d with
         | None => V_ok
         | Some i => if d_solo_commit10 d
-                    then match try1 {| d_restart_height_only := d_restart_height_only d; d_snap_unexecuted := d_snap_unexecuted d; d_solo_commit10 := false |} with
+                    then match try1 (mkD (d_restart_height_only d) (d_snap_unexecuted d) false (d_snapin_lost d)) with
                          | None => V_ok
                          | Some j => V_mismatch (N.max i j)
                          end
